@@ -58,6 +58,9 @@ func genC31Writer(t *rapid.T, label string, peer bool) c31Writer {
 	}
 	w := c31Writer{Kind: rapid.SampledFrom(kinds).Draw(t, label+".kind")}
 	w.N = rapid.IntRange(1, 40).Draw(t, label+".n")
+	if w.N < 6 && rapid.Bool().Draw(t, label+".more") {
+		w.N += 10
+	}
 	switch rapid.IntRange(0, 3).Draw(t, label+".sizeclass") {
 	case 0:
 		w.Size = 8
@@ -83,9 +86,22 @@ func genC31Plan(t *rapid.T) *c31Plan {
 	p.Cap = rapid.SampledFrom([]int{0, 0, 300, 4096}).Draw(t, "cap")
 	p.Procs = rapid.SampledFrom([]int{1, 2, 4, 16}).Draw(t, "procs")
 	nw := rapid.IntRange(1, 8).Draw(t, "nwriters")
+	if nw == 1 && rapid.Bool().Draw(t, "notsingle") {
+		nw = rapid.IntRange(2, 8).Draw(t, "nwriters2")
+	}
 	budget := 9000 // bytes per threshold unit keeps the number of re-keys per history bounded
+	burst := rapid.IntRange(0, 2).Draw(t, "burst") == 0
 	for i := 0; i < nw; i++ {
-		p.Writers = append(p.Writers, genC31Writer(t, fmt.Sprintf("w%d", i), false))
+		w := genC31Writer(t, fmt.Sprintf("w%d", i), false)
+		if burst {
+			// many small packets: more than 64 of them queue behind one KEXINIT
+			w.N = rapid.IntRange(25, 80).Draw(t, "burst.n")
+			w.Size = rapid.IntRange(8, 24).Draw(t, "burst.size")
+			if w.Kind == "greqr" {
+				w.Kind = "greq"
+			}
+		}
+		p.Writers = append(p.Writers, w)
 	}
 	np := rapid.IntRange(0, 3).Draw(t, "npeerwriters")
 	for i := 0; i < np; i++ {
@@ -97,6 +113,10 @@ func genC31Plan(t *rapid.T) *c31Plan {
 			th = 1 << 20
 		}
 		maxBytes := int(th) * 24
+		if burst {
+			// queued packets do not count toward the threshold, so bursts cost fewer re-keys per byte
+			maxBytes = int(th) * 60
+		}
 		if maxBytes > 400000 {
 			maxBytes = 400000
 		}
@@ -141,6 +161,9 @@ func genC31Plan(t *rapid.T) *c31Plan {
 	nd := rapid.IntRange(1, 4).Draw(t, "ndelay")
 	for i := 0; i < nd; i++ {
 		p.KexDelay = append(p.KexDelay, rapid.SampledFrom([]int{0, 1, 1, 2}).Draw(t, "kexdelay"))
+	}
+	if burst {
+		p.KexDelay[0] = 1
 	}
 	p.Yield = rapid.IntRange(0, 2).Draw(t, "yield")
 	p.Seed = rapid.Uint64().Draw(t, "seed")
@@ -255,6 +278,7 @@ type c31Stats struct {
 	overflow                         int
 	delayed                          int
 	queuedAfterKex                   int
+	spanning                         int
 }
 
 type c31Run struct {
@@ -262,8 +286,11 @@ type c31Run struct {
 	prog *mx.Progress
 	s    *session
 
-	mu   sync.Mutex
-	viol string
+	mu     sync.Mutex
+	viol   string
+	violCh chan struct{} // closed at the first violation
+	errCh  chan struct{} // closed when the refpeer reader ends
+	errOne sync.Once
 
 	// wire monitor state (touched only by the refpeer reader goroutine via OnIn/OnOut)
 	inKex          bool
@@ -277,21 +304,28 @@ type c31Run struct {
 	fromGo *orderCheck // Go writers -> refpeer (wire order)
 	toGo   *orderCheck // refpeer writers -> Go application
 
-	started, finished atomic.Int32 // Go writers
-	attempted, done   atomic.Int64 // Go writer packets
-	wantRekey         atomic.Bool
-	rekeyIdx          int
-	pong              chan struct{}
-	chanOf            map[uint32]uint32 // refpeer channel id -> Go channel id (from CHANNEL_OPEN)
-	peerErr           atomic.Value
+	started, finished  atomic.Int32   // Go writers
+	attempted, done    atomic.Int64   // Go writer packets
+	epochMin, epochMax map[uint32]int // per Go writer: first/last key epoch in which one of its packets was on the wire
+	wantRekey          atomic.Bool
+	rekeyIdx           int
+	pong               chan struct{}
+	chanOf             map[uint32]uint32 // refpeer channel id -> Go channel id (from CHANNEL_OPEN)
+	peerErr            atomic.Value
 }
 
 func (r *c31Run) fail(format string, a ...any) {
 	r.mu.Lock()
 	if r.viol == "" {
 		r.viol = fmt.Sprintf(format, a...)
+		close(r.violCh)
 	}
 	r.mu.Unlock()
+}
+
+func (r *c31Run) peerEnded(err error) {
+	r.peerErr.Store(err)
+	r.errOne.Do(func() { close(r.errCh) })
 }
 
 func (r *c31Run) violation() string {
@@ -323,9 +357,6 @@ func (r *c31Run) onIn(seq uint32, p []byte) {
 		r.goKexInits++
 		if r.goKexInits > 1 {
 			r.stats.goKex++
-			if r.started.Load()-r.finished.Load() >= 2 {
-				r.stats.rekeyWhile2 = true
-			}
 			if r.peerInitiating.Load() {
 				r.stats.peerInitiated++
 				if th := int64(r.plan.Threshold); th > 0 && r.appBytes >= th {
@@ -372,6 +403,13 @@ func (r *c31Run) onIn(seq uint32, p []byte) {
 	}
 	if rec != nil {
 		r.appPktsIn++
+		if len(rec) >= 4 {
+			wid := binary.BigEndian.Uint32(rec)
+			if _, ok := r.epochMin[wid]; !ok {
+				r.epochMin[wid] = r.goNewKeys
+			}
+			r.epochMax[wid] = r.goNewKeys
+		}
 		if err := r.fromGo.see(rec, from); err != nil {
 			r.fail("Go -> peer delivery: %v (wire seq %d, after %d Go key exchanges)", err, seq, r.goNewKeys)
 		}
@@ -431,7 +469,7 @@ func (r *c31Run) peerLoop() {
 	for {
 		p, err := c.ReadPacket()
 		if err != nil {
-			r.peerErr.Store(err)
+			r.peerEnded(err)
 			return
 		}
 		switch p[0] {
@@ -465,11 +503,30 @@ func (r *c31Run) peerLoop() {
 			err := c.Rekey()
 			r.peerInitiating.Store(false)
 			if err != nil {
-				r.peerErr.Store(err)
+				r.peerEnded(err)
 				return
 			}
 		}
 	}
+}
+
+// spanning returns the largest number of writers that had packets on the wire
+// both before and after one and the same re-key of the Go side (i.e. that
+// were active while that key exchange ran).
+func (r *c31Run) spanning() int {
+	best := 0
+	for j := 2; j <= r.goNewKeys; j++ {
+		n := 0
+		for w, lo := range r.epochMin {
+			if lo <= j-1 && r.epochMax[w] >= j {
+				n++
+			}
+		}
+		if n > best {
+			best = n
+		}
+	}
+	return best
 }
 
 func c31Classes(p *c31Plan, st c31Stats) []string {
@@ -492,6 +549,9 @@ func c31Classes(p *c31Plan, st c31Stats) []string {
 	if st.goKex > 0 {
 		cl = append(cl, "history:rekey")
 	}
+	if st.spanning > 0 {
+		cl = append(cl, fmt.Sprintf("writers-active-across-one-rekey=%d", st.spanning))
+	}
 	kinds := map[string]bool{}
 	for _, w := range p.Writers {
 		kinds[w.Kind] = true
@@ -509,7 +569,7 @@ func c31Classes(p *c31Plan, st c31Stats) []string {
 // violation text ("" if none) or an inconclusive error.
 func runC31Refpeer(p *c31Plan) (string, c31Stats, error) {
 	prog := &mx.Progress{}
-	r := &c31Run{plan: p, prog: prog, pong: make(chan struct{}, 4), chanOf: map[uint32]uint32{}}
+	r := &c31Run{plan: p, prog: prog, pong: make(chan struct{}, 4), chanOf: map[uint32]uint32{}, epochMin: map[uint32]int{}, epochMax: map[uint32]int{}, violCh: make(chan struct{}), errCh: make(chan struct{})}
 	r.fromGo = newOrderCheck(p.Writers, 0)
 	r.toGo = newOrderCheck(p.PeerWriters, c31PeerWBase)
 	s, err := newSession(sessOpts{GoIsClient: p.GoIsClient, Threshold: p.Threshold, Seed: p.Seed, CapGoToPeer: p.Cap, Prog: prog, OnIn: r.onIn})
@@ -713,20 +773,14 @@ func runC31Refpeer(p *c31Plan) (string, c31Stats, error) {
 	work.Go(func() { <-r.toGo.done })
 	close(start)
 	workDone := work.doneChan()
-	// a violation seen by the monitor ends the history early
+	// a violation seen by the monitor (or the end of the peer) ends the history early
 	stop := make(chan struct{})
 	go func() {
 		defer close(stop)
-		for {
-			select {
-			case <-workDone:
-				return
-			default:
-			}
-			if r.violation() != "" || r.peerErr.Load() != nil {
-				return
-			}
-			time.Sleep(500 * time.Microsecond)
+		select {
+		case <-workDone:
+		case <-r.violCh:
+		case <-r.errCh:
 		}
 	}()
 	res := watch.Wait(stop)
@@ -750,38 +804,30 @@ func runC31Refpeer(p *c31Plan) (string, c31Stats, error) {
 		}
 		return fmt.Sprintf("the independent peer could not continue: %v (Go key exchanges completed: %d; undelivered: %s / %s)", e, r.goNewKeys, r.fromGo.missing(), r.toGo.missing()), r.stats, nil
 	}
-	// final barrier: the connection is still usable after all re-keys
+	// final barrier: the pong is an application packet of the Go side, so its
+	// arrival proves that every key exchange started before it has completed
+	// and that the connection is still usable.
 	s.Peer.WritePacket(mx.Ping([]byte("end")))
 	pongc := make(chan struct{})
 	go func() {
 		defer close(pongc)
-		for {
-			select {
-			case <-r.pong:
-				return
-			default:
-			}
-			if r.peerErr.Load() != nil {
-				return
-			}
-			time.Sleep(200 * time.Microsecond)
+		select {
+		case <-r.pong:
+		case <-r.errCh:
+		case <-r.violCh:
 		}
 	}()
 	res = watch.Wait(pongc)
-	<-func() <-chan struct{} {
-		if res.Verdict == mx.Done {
-			return pongc
-		}
-		r.peerErr.Store(io.EOF)
-		return pongc
-	}()
-	if res.Verdict == mx.Done && r.inKexSnapshot() {
-		// a key exchange started by the last packets is still running: let it finish
-		res = watch.Wait(r.kexSettled())
+	if res.Verdict == mx.Done && r.peerErr.Load() != nil && r.violation() == "" {
+		r.fail("the independent peer could not continue at the final barrier: %v", r.peerErr.Load())
 	}
 	out, st, err := finish(res, "final barrier")
 	if out == "" && err == nil {
-		if r.goKexInits != r.goNewKeys {
+		st.spanning = r.spanning()
+		if st.spanning >= 2 {
+			st.rekeyWhile2 = true
+		}
+		if d := r.goKexInits - r.goNewKeys; d != 0 && d != 1 {
 			return fmt.Sprintf("%d KEXINIT but %d NEWKEYS from the Go side", r.goKexInits, r.goNewKeys), st, nil
 		}
 		if r.goNewKeys != s.Peer.KexCount && r.goNewKeys != s.Peer.KexCount+1 {
@@ -791,13 +837,6 @@ func runC31Refpeer(p *c31Plan) (string, c31Stats, error) {
 	return out, st, err
 }
 
-func (r *c31Run) inKexSnapshot() bool { return false }
-func (r *c31Run) kexSettled() <-chan struct{} {
-	ch := make(chan struct{})
-	close(ch)
-	return ch
-}
-
 // ---- half B: Go client <-> Go server ----
 
 func runC31GoGo(p *c31Plan) (string, c31Stats, error) {
@@ -805,7 +844,12 @@ func runC31GoGo(p *c31Plan) (string, c31Stats, error) {
 	var st c31Stats
 	a, b := mx.NewPipe(prog, p.Cap, p.Cap)
 	var viol atomic.Value
-	fail := func(format string, x ...any) { viol.CompareAndSwap(nil, fmt.Sprintf(format, x...)) }
+	violCh := make(chan struct{})
+	var violOnce sync.Once
+	fail := func(format string, x ...any) {
+		viol.CompareAndSwap(nil, fmt.Sprintf(format, x...))
+		violOnce.Do(func() { close(violCh) })
+	}
 	scfg := &ssh.ServerConfig{Config: ssh.Config{RekeyThreshold: p.Threshold2, Rand: newDRBG(p.Seed, "srv")}, NoClientAuth: true}
 	scfg.AddHostKey(hostSigner)
 	ccfg := &ssh.ClientConfig{Config: ssh.Config{RekeyThreshold: p.Threshold, Rand: newDRBG(p.Seed, "cli")}, User: "u", HostKeyCallback: ssh.FixedHostKey(hostSigner.PublicKey())}
@@ -971,30 +1015,18 @@ func runC31GoGo(p *c31Plan) (string, c31Stats, error) {
 	stop := make(chan struct{})
 	go func() {
 		defer close(stop)
-		for {
-			select {
-			case <-workDone:
-				return
-			default:
-			}
-			if viol.Load() != nil {
-				return
-			}
-			time.Sleep(500 * time.Microsecond)
+		select {
+		case <-workDone:
+		case <-violCh:
 		}
 	}()
 	res := watch.Wait(stop)
-	<-func() <-chan struct{} {
-		if res.Verdict != mx.Done {
-			viol.CompareAndSwap(nil, "")
-		}
-		return stop
-	}()
 	toServer.once.Do(func() { close(toServer.done) })
 	toClient.once.Do(func() { close(toClient.done) })
 	closeBoth()
 	end := watch.Wait(all.doneChan())
 	watch.Wait(workDone)
+	<-stop
 	if v, _ := viol.Load().(string); v != "" {
 		return v, st, nil
 	}
